@@ -377,4 +377,20 @@ def main():
 
 
 if __name__ == "__main__":
-    sys.exit(main())
+    try:
+        rc = main()
+    except SystemExit as e:
+        # the generators and the workspace code stop with `SystemExit("INCONCLUSIVE: <why>")` when the source no longer has the shape
+        # they extract from (renamed function, missing macro arm ...).  That is "no verdict" (exit 2), never a violation (exit 1),
+        # and the reason belongs on stdout next to the other result lines.
+        if isinstance(e.code, str):
+            print(e.code if e.code.startswith("INCONCLUSIVE") else "INCONCLUSIVE: " + e.code)
+            rc = 2
+        else:
+            raise
+    except Exception:
+        # a crash of the machinery is "no verdict" (exit 2); exit 1 is reserved for a reproduced violation
+        import traceback
+        print("INCONCLUSIVE: the check itself failed:\n" + traceback.format_exc())
+        rc = 2
+    sys.exit(rc)
